@@ -6,6 +6,9 @@ import S2T.Model.Amplify
 import S2T.Gen.C12Consts
 import S2T.Model.XmlEntities
 import S2T.Gen.C12Xml
+import S2T.Model.ReadHistory
+import S2T.Model.Inflate
+import S2T.Gen.C12Sites
 namespace S2T.Drv.C12
 open Lean S2T.Drv S2T.Loops S2T.Limits S2T.Amplify S2T.XmlEnt
 open S2T.Gen (C12Consts.filepassId)
@@ -299,6 +302,31 @@ def handle (op : String) (j : Json) : Option (Except String Json) :=
         let tl ← getNat c "tlen"
         return (⟨r, col, tl⟩ : UsedCell))
       return Json.mkObj [("cells", jN (rectCells cs)), ("sheet_len", jN (sheetLen env tags cs))]
+  | "c12.history" => some do
+      let o ← genOps
+      let c ← match S2T.ReadHistory.Cfg.ofSites S2T.Gen.C12Sites.readFileActivations with
+        | some c => pure c
+        | none => throw "read_file activations: no guard / read site, sites disagree, or a site is unknown"
+      let size ← getNat j "size"
+      let a ← getArr j "events"
+      let evs ← a.toList.mapM (fun e => do
+        let k ← getStr e "ev"
+        match k with
+        | "call" => do return S2T.ReadHistory.Ev.call (← getInt e "limit")
+        | "resize" => do return S2T.ReadHistory.Ev.resize (← getNat e "size")
+        | "consume" => do return S2T.ReadHistory.Ev.consume (← getNat e "i")
+        | _ => throw s!"unknown event {k}")
+      let obs := S2T.ReadHistory.run o c ⟨size, []⟩ evs
+      return Json.mkObj [("obs", Json.arr (obs.map (fun ob => match ob with
+        | .none => Json.str "none" | .rejected => Json.str "reject" | .stale => Json.str "stale"
+        | .read _ n => Json.mkObj [("read", jN n)] | .delivered n => Json.mkObj [("read", jN n)])).toArray)]
+  | "c12.gz_stream" => some do
+      let ms ← natArr j "members"
+      let lim ← getNat j "limit"
+      return Json.mkObj [("isize", jN (S2T.Inflate.isize ms)), ("inflated", jN (S2T.Inflate.inflated ms)),
+                         ("bounded_read", jN (S2T.Inflate.produced .boundedRead lim ms)),
+                         ("bounded_hands_on", Json.bool (S2T.Inflate.handedOn .boundedRead lim ms)),
+                         ("trailer_hands_on", Json.bool (S2T.Inflate.handedOn .oneShotTrailerGuard lim ms))]
   | _ => none
 
 end S2T.Drv.C12
